@@ -55,7 +55,7 @@ def go_g(f):
     digits = digits.rstrip("0") or "0"
     nd = len(digits)
     exp = dp - 1
-    if exp < -4 or exp >= 21 - 15:   # shortest: eprec = 6
+    if exp < -4 or exp >= 6:   # %e when the exponent is < -4 or >= eprec, and eprec = 6 for the shortest form
         out = digits[0] + ("." + digits[1:] if nd > 1 else "") + "e" + ("-" if exp < 0 else "+") + "%02d" % abs(exp)
     elif dp <= 0:
         out = "0." + "0" * (-dp) + digits
